@@ -12,4 +12,5 @@ for c in "$@"; do
   ( cd /verif && timeout 3000 ./check $prop $tier 2>&1 | grep -E "^(VIOLATION|OK|FAILED|MACHINERY|KNOWN|  )" | cut -c1-260 | awk 'NR<=6 {print} {last=$0} END {if (NR>6) print last}' )
   [ -f /verif/target/evidence_$prop.bak ] && mv /verif/target/evidence_$prop.bak /verif/evidence/$prop.json
 done
-git -C /repo checkout -- . && git -C /repo status --short | head -3
+# revert exactly what was applied (a patch may add files, which checkout alone would leave behind)
+git -C /repo apply -R $P 2>/dev/null; git -C /repo checkout -- .; git -C /repo status --short | head -3
